@@ -445,10 +445,12 @@ theorem topStep_nohang (f : Facts) (hf : f.commentStopsAtEof = true) (n : Nat) (
         intro ⟨a1, a2, a3⟩ ha
         simp only [] at ha
         exact hk _ _ (by simp only []; omega)
-      · apply noHang_bind (p := fun r => r.2) _ _ (parseData_prog f hf _ _ _ (by omega))
-        intro ⟨a1, a2⟩ ha
-        simp only [] at ha
-        exact hk _ _ (by simp only []; omega)
+      · split
+        · simp [NoHang, Prog]
+        · apply noHang_bind (p := fun r => r.2) _ _ (parseData_prog f hf _ _ _ (by omega))
+          intro ⟨a1, a2⟩ ha
+          simp only [] at ha
+          exact hk _ _ (by simp only []; omega)
       · apply noHang_bind (p := id) _ _ (skipBlock_prog _ _ (by omega))
         intro a ha
         simp only [id] at ha
